@@ -267,7 +267,16 @@ def run(ctx):
                         tg = p.targets[0] if isinstance(p, ast.Assign) else p.target
                         if isinstance(tg, ast.Name) and fn is not None:
                             loads = [x for x in ast.walk(fn) if isinstance(x, ast.Name) and x.id == tg.id and isinstance(x.ctx, ast.Load)]
-                            in_loop = any(isinstance(a, (ast.For, ast.While)) for x in loads for a in m.ancestors(x) if m.enclosing_function(a) is fn and not any(a2 is a for a2 in m.ancestors(p)))
+                            def _in_iter(x_, loop_):
+                                # the iterable of a for statement is evaluated once, before the loop
+                                return isinstance(loop_, ast.For) and any(y_ is x_ for y_ in ast.walk(loop_.iter))
+
+                            in_loop = any(
+                                isinstance(a, (ast.For, ast.While)) and not _in_iter(x, a)
+                                for x in loads
+                                for a in m.ancestors(x)
+                                if m.enclosing_function(a) is fn and not any(a2 is a for a2 in m.ancestors(p))
+                            )
                             if len(loads) > 1 or in_loop:
                                 why = "is bound to %s, which is read more than once" % tg.id
                         elif isinstance(tg, ast.Name):
